@@ -235,6 +235,8 @@ pub struct PolResult {
     pub dump: String,
     /// eviction victims of each prelude command (the sequential model's oracle)
     pub prelude_victims: Vec<Vec<Vec<u8>>>,
+    /// answers of the memcache-level commands, per client
+    pub mresults: Vec<Vec<String>>,
 }
 
 pub fn run_case(case: &PolCase, choose: &mut dyn FnMut(&[usize]) -> usize) -> PolResult {
@@ -242,6 +244,8 @@ pub fn run_case(case: &PolCase, choose: &mut dyn FnMut(&[usize]) -> usize) -> Po
     let sys = Arc::new(PolSys::new(case.limit, n));
     let mut prelude_victims = Vec::new();
     for o in &case.prelude {
+        // not under the scheduler: the deadman sees a command that never comes back
+        crate::watch::beat();
         exec_memc(&sys.memc, o);
         let v: Vec<Vec<u8>> = std::mem::take(&mut *sys.scans.lock().unwrap()).into_iter().flat_map(|x| x.1).collect();
         prelude_victims.push(v);
@@ -254,14 +258,17 @@ pub fn run_case(case: &PolCase, choose: &mut dyn FnMut(&[usize]) -> usize) -> Po
     *sys.outer.sched.lock().unwrap() = Some(sched.clone());
     install_hook(Some(sched.clone()));
     let mut handles = Vec::new();
+    let mresults: Arc<Mutex<Vec<Vec<String>>>> = Arc::new(Mutex::new(vec![Vec::new(); n]));
     for (i, ops) in case.threads.iter().cloned().enumerate() {
         let sys = sys.clone();
         let sched = sched.clone();
+        let mresults = mresults.clone();
         handles.push(std::thread::spawn(move || {
             TID.with(|t| t.set(Some(i)));
             // park before doing anything, so that the first Cache operation starts under the scheduler
             for o in ops {
-                exec_memc(&sys.memc, &o);
+                let r = exec_memc(&sys.memc, &o);
+                mresults.lock().unwrap()[i].push(r);
             }
             TID.with(|t| t.set(None));
             sched.finish(i);
@@ -295,7 +302,67 @@ pub fn run_case(case: &PolCase, choose: &mut dyn FnMut(&[usize]) -> usize) -> Po
     let usage = sys.usage();
     let (total, dump) = if stuck.is_none() { sys.dump() } else { (0, String::new()) };
     let base_ops = sys.outer.log.lock().unwrap().clone();
-    PolResult { sched: order, stuck, base_ops, scans, usage, total, total0, dump, prelude_victims }
+    let mres = mresults.lock().unwrap().clone();
+    PolResult { sched: order, stuck, base_ops, scans, usage, total, total0, dump, prelude_victims, mresults: mres }
+}
+
+/// content without CAS and timestamps
+fn content_of(dump: &str) -> Vec<String> {
+    dump.lines()
+        .map(|l| {
+            let p: Vec<&str> = l.split(' ').collect();
+            format!("{} {} {} {}", p[1], p[2], p[3], p[5])
+        })
+        .collect()
+}
+
+/// Every one-at-a-time order of the clients' commands on a fresh store behind the policy:
+/// (answers, content) of each, or None when some order ran a scan of the map (an eviction or
+/// an immediate flush: what those remove is the random generator's choice, no order is
+/// comparable then).
+fn sequential_outcomes(case: &PolCase) -> Option<Vec<(Vec<Vec<String>>, Vec<String>)>> {
+    fn rec(case: &PolCase, pos: &mut Vec<usize>, order: &mut Vec<usize>, out: &mut Vec<Vec<usize>>) {
+        let mut any = false;
+        for t in 0..case.threads.len() {
+            if pos[t] < case.threads[t].len() {
+                any = true;
+                pos[t] += 1;
+                order.push(t);
+                rec(case, pos, order, out);
+                order.pop();
+                pos[t] -= 1;
+            }
+        }
+        if !any {
+            out.push(order.clone());
+        }
+    }
+    let mut orders = Vec::new();
+    rec(case, &mut vec![0; case.threads.len()], &mut Vec::new(), &mut orders);
+    let mut res = Vec::new();
+    for ord in orders {
+        let sys = PolSys::new(case.limit, case.threads.len());
+        for o in &case.prelude {
+            crate::watch::beat();
+            exec_memc(&sys.memc, o);
+        }
+        sys.clock.0.fetch_add(case.tick, Ordering::SeqCst);
+        sys.scans.lock().unwrap().clear();
+        let mut pos = vec![0; case.threads.len()];
+        let mut results = vec![Vec::new(); case.threads.len()];
+        for t in ord {
+            crate::watch::beat();
+            let r = exec_memc(&sys.memc, &case.threads[t][pos[t]]);
+            results[t].push(crate::conc::strip(&r));
+            pos[t] += 1;
+        }
+        if !sys.scans.lock().unwrap().is_empty() {
+            return None;
+        }
+        let (_, dump) = sys.dump();
+        res.push((results, content_of(&dump)));
+    }
+    Some(res)
 }
 
 const PKEYS: &[&[u8]] = &[b"k", b"j", b"m"];
@@ -361,6 +428,18 @@ pub fn witnesses() -> Vec<(PolCase, Vec<usize>)> {
             threads: vec![vec![COp::Set(k.clone(), vec![b'a'; 10], 0, 0, 0)], vec![COp::Set(k.clone(), vec![b'b'; 1000], 0, 0, 0)]],
         },
         vec![0, 0, 0, 1, 1, 1, 0, 0, 0, 0, 1, 1, 1, 1],
+    ), (
+        // a delete carrying the item's CAS, a store by another client inside it: with an atomic
+        // compare-and-remove either the delete comes first (and the store stays) or the store does
+        // (and the delete is refused)
+        PolCase {
+            id: "w-casdelete-store".into(),
+            limit: 100_000,
+            prelude: vec![COp::Set(k.clone(), b"v1".to_vec(), 0, 0, 0)],
+            tick: 0,
+            threads: vec![vec![COp::Del(k.clone(), 1)], vec![COp::Set(k.clone(), b"v2".to_vec(), 0, 0, 0)]],
+        },
+        vec![0, 0, 1, 1, 1, 1, 1, 1, 1, 1, 1, 1, 1, 1, 0, 0, 0, 0, 0, 0],
     )]
 }
 
@@ -406,6 +485,24 @@ pub fn run_cases(seed: u64, cases: usize, fixed: Vec<(PolCase, Vec<usize>)>, tra
             Some((cs, sc)) => (cs, Some(sc)),
             None => (gen_case(&mut rng, format!("p-{}-{}", seed, c)), None),
         };
+        {
+            // what identifies the case, should one of its commands never return
+            let mut head = format!("CASE {} 1048576 {}\n", case.id, case.limit);
+            for o in case.prelude.iter() {
+                if let COp::Set(k, v, f, t, _) = o {
+                    let req = crate::gen::set_like(opc::SETQ, k, v, *f, *t);
+                    let _ = writeln!(head, "O\nC 0 {}", hex(&req.bytes()));
+                }
+            }
+            if case.tick > 0 {
+                let _ = writeln!(head, "T {}", case.tick);
+            }
+            for (i, ops) in case.threads.iter().enumerate() {
+                let enc: Vec<String> = ops.iter().map(|o| o.encode()).collect();
+                let _ = writeln!(head, "MOPS {} {}", i, enc.join("|"));
+            }
+            crate::watch::case_start(trace, obs, monitor, &case.id, &head);
+        }
         let mut srng = Rng::new(seed.wrapping_mul(733).wrapping_add(c as u64));
         let mut pos = 0;
         let res = run_case(&case, &mut |runnable| match &fixed_sched {
@@ -472,6 +569,20 @@ pub fn run_cases(seed: u64, cases: usize, fixed: Vec<(PolCase, Vec<usize>)>, tra
         }).sum();
         if res.total > std::cmp::max(case.limit, res.total0) + window {
             let _ = writeln!(monitor, "BOUND {} stored_{}_limit_{}_window_{}", case.id, res.total, case.limit, window);
+        }
+        // and, when neither the window nor any one-at-a-time order ran a scan of the map (no
+        // eviction, no immediate flush: nothing random), the outcome must be that of some order
+        // of the commands — except for the read-modify-write commands (known finding C04)
+        let rmw = case.threads.iter().flatten().any(|o| o.class() != "base");
+        let total_ops: usize = case.threads.iter().map(|t| t.len()).sum();
+        if res.scans.is_empty() && !rmw && total_ops <= 7 {
+            if let Some(seqs) = sequential_outcomes(&case) {
+                let got: Vec<Vec<String>> = res.mresults.iter().map(|v| v.iter().map(|r| crate::conc::strip(r)).collect()).collect();
+                let content = content_of(&res.dump);
+                if !seqs.iter().any(|(r, c)| *r == got && *c == content) {
+                    let _ = writeln!(monitor, "NONLIN {} base", case.id);
+                }
+            }
         }
     }
     (0, steps)
